@@ -2094,6 +2094,13 @@ func opcodeCheckMultiSig(op *ParsedOpcode, t *thread) error {
 		return errs.NewError(errs.ErrTooManyOperations, "exceeded max operation limit of %d", t.cfg.MaxOps())
 	}
 
+	// the count comes from the script: do not size anything from it before
+	// knowing that the stack really holds that many keys
+	if numPubKeys > int(t.dstack.Depth()) {
+		return errs.NewError(errs.ErrInvalidStackOperation,
+			"number of pubkeys %d exceeds the stack depth %d", numPubKeys, t.dstack.Depth())
+	}
+
 	pubKeys := make([][]byte, 0, numPubKeys)
 	for i := 0; i < numPubKeys; i++ {
 		pubKey, err := t.dstack.PopByteArray() //nolint:govet // ignore shadowed error
